@@ -18,22 +18,8 @@ def run(chk):
     for v in res["violations"] or []:
         chk.violation(v["sig"], v["desc"], dict(kind="c05-framing", detail=v))
     # content: TLC-enumerated operation shapes through the real encoder, decoded independently at the server
-    gw = vlib.scratch("verif-c05c-")
-    g = vlib.run_tlc("Gen_Wire", workers=1, timeout=300, workdir=gw)
-    vlib.tlc_must_pass(g, "Gen_Wire")
-    chk.add_tlc(g)
-    g2 = vlib.run_tlc("Gen_KeyValue", workers=1, timeout=300, workdir=gw)
-    vlib.tlc_must_pass(g2, "Gen_KeyValue")
-    chk.add_tlc(g2)
-    t2 = vlib.go_test("region", "^TestVerifC05Content$", env=dict(VERIF_IN=gw, VERIF_OUT=gw, VERIF_SEED=str(chk.seed)), timeout=1700, race=False)
-    resf = os.path.join(gw, "c05c_result.json")
-    if not os.path.exists(resf) or t2["rc"] != 0:
-        v = vlib.classify_panic(t2["out"])
-        if v:
-            chk.violation(v["sig"], v["desc"], dict(kind="panic"))
-            return
-        raise vlib.MachineryError("C05 content driver failed:\n" + t2["out"][-3500:])
-    rc = json.load(open(resf))
+    import wirecontent
+    rc = wirecontent.run_content(chk)
     for v in rc["violations"] or []:
         chk.violation(v["sig"], v["desc"], dict(kind="c05-content", detail=v))
     chk.cov["traces_validated_against_impl"] = res["scenarios"] + rc["scenarios"]
